@@ -274,6 +274,15 @@ def gen_scenarios(ctx):
     for (fn, k, e, sh) in [(FTELL, 0, EIO, 0), (FSEEK, 0, EINVAL, 0), (FSEEK, 1, EIO, 0), (FREAD, 0, EIO, 0), (FREAD, 0, EIO, 1), (FREAD, 0, 0, 1)]:
         for P in (1, 2):
             S.append(Scen(P, [("o", 0), ("r", 1, 2, 3), ("r", 1, 0, 2), ("c",)], init=b"0123456789", faults=[(0, fn, k, e, sh)], family="at-fault", **rs()))
+    # a partial transfer with errno set AND a failing position-restoring fseek: the class is the one of the transfer's errno;
+    # a short transfer without errno and a failing restoring fseek: the class is the one of the fseek's errno
+    for e, sh in ((ENOSPC, 1), (EIO, 2), (0, 1)):
+        for P in (1, 2):
+            S.append(Scen(P, [("o", 1), ("w", 1, 1, 2, 3), ("w", 1, 2, 0, 2), ("c",)], faults=[(0, FWRITE, 0, e, sh), (0, FSEEK, 1, EACCES, 0)], family="at-fault", **rs()))
+            S.append(Scen(P, [("o", 0), ("r", 1, 2, 3), ("r", 1, 0, 2), ("c",)], init=b"0123456789", faults=[(0, FREAD, 0, e, sh), (0, FSEEK, 1, EACCES, 0)], family="at-fault", **rs()))
+    # the same through the P successive calls of configuration A (collective operation of P logical ranks)
+    for P in (2, 3):
+        S.append(Scen(P, [("o", 1), ("W", 1, 1, tuple((3 * q, 3) for q in range(P))), ("c",)], faults=[(P - 1, FWRITE, 0, ENOSPC, 2)], family="at-fault", **rs()))
     # (f) random sequences with random faults
     for rep in range(60 if quick else 1500):
         P = rng.choice(Ps)
@@ -509,9 +518,9 @@ def oracle(ctx, sc, cfg, res, ftxt, stdio, mem, failures, rep):
                 if cfg == "A":
                     for q in range(P):
                         fq = [f for f in fl if f[0] == q]
+                        # also for a partial transfer with errno set (0 < ocount < count): the class must not be SUCCESS
                         if (rr[q].cls == "SUCCESS") != (not fq):
-                            part = 0 < rr[q].ocount
-                            V.append((("partial-transfer-success:%s:%s" if part else "success-iff:%s:%s") % (cfg, k),
+                            V.append(("success-iff:%s:%s" % (cfg, k),
                                       "operation %d (%s), logical rank %d: class %s, ocount %d of %d, failed stdio calls %s" % (i, k, q, rr[q].cls, rr[q].ocount, args[q][1], fq)))
                 elif (list(cl)[0] == "SUCCESS") != (not fl):
                     V.append(("success-iff:%s:%s" % (cfg, k), "operation %d (%s): class %s on all ranks, failed stdio calls %s" % (i, k, sorted(cl), fl)))
@@ -553,9 +562,10 @@ def oracle(ctx, sc, cfg, res, ftxt, stdio, mem, failures, rep):
                 V.append(("no-result:%s:%s" % (cfg, k), "operation %d (%s): rank 0 printed no result" % (i, k)))
                 return V
             off, cnt = (o[3], o[4]) if k == "w" else (o[2], o[3])
+            # SUCCESS iff no stdio call of the operation failed - also when fread/fwrite transferred some but not all
+            # elements and set errno (0 < ocount < count): the class must be the one of that errno, not SUCCESS
             if failures is not None and (r.cls == "SUCCESS") != (not fl):
-                part = 0 < r.ocount
-                V.append((("partial-transfer-success:%s:%s" if part else "success-iff:%s:%s") % (cfg, k),
+                V.append(("success-iff:%s:%s" % (cfg, k),
                           "operation %d (%s): class %s, ocount %d of %d, failed stdio calls %s" % (i, k, r.cls, r.ocount, cnt, fl)))
             undefined = cfg == "B" and r.ocount == MPI_UNDEFINED and k == "r"
             if undefined:
